@@ -29,7 +29,24 @@ def tla_set(prefix, n):
     return "{" + ", ".join('"%s%d"' % (prefix, i + 1) for i in range(n)) + "}"
 
 
-def mc_defs(e, m, c, r, p, rt, g, shape, known, shared=1):
+def udefs(user=0, evm=0, lim=0, pan=0, mshape="locked", pshape="locked", shares=True):
+    """User-code dimension: the first `user` mutators are RecordError calls with a gate error, the first `evm`
+    mutators append one event to the FIFO (limit `lim`, `lim` events recorded beforehand), the first `pan` enders
+    call End deferred during a panic."""
+    return {"USERMUT": tla_set("m", user), "EVMUT": tla_set("m", evm), "EVLIMIT": lim,
+            "EVINIT": "<<" + ", ".join('"i%d"' % (i + 1) for i in range(lim)) + ">>", "PANICKERS": tla_set("e", pan),
+            "MSHAPE": mshape, "PSHAPE": pshape, "SNAPSHARES": "TRUE" if shares else "FALSE"}
+
+
+def mc_defs(e, m, c, r, p, rt, g, shape, known, shared=1, u=None):
+    d = udefs() if u is None else u
+    if u is not None:
+        shared = 0
+    d.update(_mc_defs(e, m, c, r, p, rt, g, shape, known, shared))
+    return d
+
+
+def _mc_defs(e, m, c, r, p, rt, g, shape, known, shared=1):
     return {"REGISTRARS": "<<" + ", ".join('"g%d"' % (i + 1) for i in range(g)) + ">>", "ENDERS": tla_set("e", e), "MUTATORS": tla_set("m", m), "CHILDREN": tla_set("c", c),
             "READERS": tla_set("r", r), "PROCESSORS": "<<" + ", ".join('"p%d"' % (i + 1) for i in range(p)) + ">>",
             "SHARED": tla_set("m", min(shared, m)), "EXECTRACER": "TRUE" if rt else "FALSE", "SHAPE": shape,
@@ -42,7 +59,7 @@ def cfg_name(e, m, c, r, p, rt, g, shape=""):
 
 def sc(name, script=None, **kw):
     d = dict(name=name, rt=True, nprocs=1, enders=2, endsPer=1, ts=True, muts=[], mutsPer=1, children=0, readers=0,
-             readsPer=1, etimers=0, regs=0, perturb=0.0)
+             readsPer=1, etimers=0, regs=0, lim=0, panickers=0, perturb=0.0)
     d.update(kw)
     if script is not None:
         d["script"] = script
@@ -77,6 +94,19 @@ def directed(shape):
         out.append(sc("two-enders-after-mark", ["e1@call", "e1@span.end.marked+", "e2@call", "e2@span.end.ignored+",
                                                 "e1@span.end.marked", "e1@ret+", "e2@span.end.ignored", "e2@ret+"],
                       nprocs=2, muts=["attrs"], etimers=1))
+    # user code inside span methods (natural gates, no hooks). Only the essential gates are scripted, everything
+    # else runs as far as span.mu lets it: under the lock the other call simply blocks until the holder is released,
+    # without it the End overtakes -- which must still be harmless.
+    for lim in (1, 3):
+        out.append(sc("recorderror-in-Error-while-End-lim%d" % lim,
+                      ["m1@call", "m1@err.Error+", "e1@call", "m1@err.Error", "m1@ret+", "e1@ret+"],
+                      enders=1, muts=["uerror"], lim=lim, nprocs=2, rt=(lim == 1)))
+        out.append(sc("panic-format-while-second-End-lim%d" % lim,
+                      ["m1@call", "m1@ret+", "e1@call", "e1@panic.Format+", "e2@call", "e1@panic.Format", "e1@ret+", "e2@ret+"],
+                      enders=2, panickers=1, muts=["event"], lim=lim, nprocs=2, rt=(lim == 1)))
+    out.append(sc("panic-format-and-recorderror", ["e1@call", "e1@panic.Format+", "m1@call", "e2@call", "e1@panic.Format",
+                                                   "e1@ret+", "m1@ret+", "e2@ret+"],
+                  enders=2, panickers=1, muts=["uerror"], lim=2, nprocs=1, rt=False))
     for rt in (True, False):
         tag = "rt" if rt else "nort"
         # plain sequential double End: second call must do nothing
@@ -127,6 +157,8 @@ def run(ctx):
         ctx.extra["note"] = ("End fires its instrumentation points in an order no shape of SpanEnd.tla describes (%s): "
                              "contract-only validation, gate replay skipped" % pr)
     ctx.extra["end_shape"] = shape if (replay or not hooks) else "unknown"
+    uc = pr.get("user_code") or {}
+    ms, ps = uc.get("mshape", "unknown"), uc.get("pshape", "unknown")   # locked | recheck | norecheck | unknown
     known_model = (shape == "window")
 
     # ------------------------------------------------------------ exhaustive model checking
@@ -142,13 +174,6 @@ def run(ctx):
                     name="mc-" + cfg_name(*c, shape=shape), timeout=3000, coverage=cov)
         if cov:
             zero = set(r["zero_cov"]) if zero is None else zero & set(r["zero_cov"])
-    # vacuity: every action of SpanEnd.tla is taken somewhere (Terminated is the final stuttering step; the
-    # window actions do not exist in the markfirst shape, ERecheck only in the recheck shape)
-    absent = ({"Terminated", "Next"} | ({"EUnlockForTask", "ERelock"} if shape == "markfirst" else set())
-              | (set() if shape == "recheck" else {"ERecheck"}))
-    ctx.extra["zero_coverage_actions"] = sorted(zero - absent)
-    if ctx.extra["zero_coverage_actions"]:
-        ctx.note_inconclusive("vacuity: actions of SpanEnd.tla never taken: %s" % ctx.extra["zero_coverage_actions"])
     # the model of the pinned code exhibits D1 when it is not admitted (guards against a vacuous contract) ...
     r = ctx.tlc(S, "MC_SpanEnd", "MC_SpanEnd.cfg", defines=mc_defs(2, 1, 0, 0, 2, True, 0, "window", False), name="mc-noknown",
                 must_pass=False, count=False, timeout=600)
@@ -160,6 +185,36 @@ def run(ctx):
         if shape != sh:
             ctx.tlc(S, "MC_SpanEnd", "MC_SpanEnd.cfg", defines=mc_defs(2, 1, 1, 1, 2, True, 0, sh, False),
                     name="mc-repair-" + sh, timeout=1200, count=False)
+    # user code inside span methods, with the shapes the probe found (SnapShares = TRUE: pessimistic, not observable
+    # from outside unless something is added after End)
+    dev_tree = "norecheck" in (ms, ps)
+    if "unknown" not in (ms, ps):
+        ufam = [((2, 2, 1, 0, 2, True, 0), (1, 2, 1, 1)), ((2, 1, 0, 1, 1, False, 0), (1, 1, 1, 1))]
+        if thorough:
+            ufam += [((3, 1, 0, 0, 1, True, 0), (1, 1, 1, 2)), ((2, 2, 1, 1, 2, True, 0), (2, 2, 2, 1))]
+        for c, u in ufam:
+            r = ctx.tlc(S, "MC_SpanEnd", "MC_SpanEnd.cfg", name="mc-user-" + cfg_name(*c) + "-u%d%d%d%d" % u, timeout=3000,
+                        defines=mc_defs(*c, shape=shape, known=known_model and c[5], u=udefs(*u, mshape=ms, pshape=ps)),
+                        must_pass=dev_tree is False, coverage=True)
+            zero &= set(r["zero_cov"])
+    # vacuity: every action of SpanEnd.tla is taken somewhere (Terminated is the final stuttering step; the
+    # window actions do not exist in the markfirst shape, ERecheck only in the recheck shape)
+    absent = ({"Terminated", "Next"} | ({"EUnlockForTask", "ERelock"} if shape == "markfirst" else set())
+              | (set() if shape == "recheck" else {"ERecheck"})
+              | {"locked": {"EPanicUnlock", "EPanicRelock", "EPanicRecheck"}, "norecheck": {"EPanicRecheck"}, "recheck": set()}.get(
+                  ps, {"EPanicUnlock", "EPanicRelock", "EPanicRecheck", "EPanicFormat", "EPanicAddEvent", "MApplyEv", "MUser", "MPreCheck"})
+              | ({"MPreCheck"} if ms == "locked" else set()))
+    ctx.extra["zero_coverage_actions"] = sorted(zero - absent)
+    if ctx.extra["zero_coverage_actions"]:
+        ctx.note_inconclusive("vacuity: actions of SpanEnd.tla never taken: %s" % ctx.extra["zero_coverage_actions"])
+    # named deviations D2 / D3: TLC finds them; the correct unlocked shape ("recheck") is clean with aliased queues
+    for nm, u, want in (("D3-late-recorderror", udefs(1, 1, 1, 0, mshape="norecheck"), True),
+                        ("D2-panic-format-window", udefs(0, 1, 1, 1, pshape="norecheck"), True),
+                        ("recheck-user-code", udefs(1, 1, 1, 1, mshape="recheck", pshape="recheck"), False)):
+        r = ctx.tlc(S, "MC_SpanEnd", "MC_SpanEnd.cfg", name="mc-" + nm, timeout=600, must_pass=not want, count=False,
+                    defines=mc_defs(2, 1, 0, 0, 2, False, 0, "markfirst", False, u=u))
+        if want and r["violated"] not in ("Contract", "SnapshotStable"):
+            ctx.note_inconclusive("model drift: TLC no longer finds the named deviation %s (%s)" % (nm, r["out"]))
     # liveness under fairness: every call returns (no deadlock is an invariant of every config above)
     ctx.tlc(S, "MC_SpanEnd", "MC_SpanEnd_live.cfg", defines=mc_defs(2, 1, 1, 0, 1, True, 0, shape, known_model),
             name="live-e2-m1-c1", timeout=1200)
@@ -174,16 +229,29 @@ def run(ctx):
     if replay:
         seen = set()
 
-        def behaviours(c, r, tag):
+        def behaviours(c, r, tag, u=None, only_bad=False, limit=None):
             e, m, ch, rd, np_, rt, g = c
+            muts, kw = ["attrs", "event"][:m], {}
+            if u is not None:   # (user, evm, lim, pan): see udefs
+                muts = ["uerror" if i < u[0] else "event" if i < u[1] else "attrs" for i in range(m)]
+                kw = dict(lim=u[2], panickers=u[3])
+            n = 0
             for s in r["prints"]:
                 if isinstance(s, str) and s.startswith("BEHAVIOUR ") and s not in seen:
-                    seen.add(s)
                     b = json.loads(s[len("BEHAVIOUR "):])
+                    if only_bad and not (b["bad"] or not b["stable"]):
+                        continue
+                    if limit is not None and n >= limit:
+                        break
+                    n += 1
+                    seen.add(s)
                     name = "%s-%s-%d" % (tag, cfg_name(*c), len(scenarios))
-                    expect[name] = b
-                    scenarios.append(sc(name, b["script"], rt=rt, nprocs=np_, enders=e, muts=["attrs", "event"][:m],
-                                        children=ch, readers=rd, regs=g, ts=(len(scenarios) % 2 == 0)))
+                    if not only_bad:   # behaviours of a deviating shape are schedules to try, not predictions
+                        b["cmp_parts"] = u is None
+                        expect[name] = b
+                    scenarios.append(sc(name, b["script"], rt=rt, nprocs=np_, enders=e, muts=muts,
+                                        children=ch, readers=rd, regs=g, ts=(len(scenarios) % 2 == 0), **kw))
+            return n
 
         # every gate-level interleaving (exhaustive TLC run of the Sim spec: the history makes the graph a tree)
         allil = [(2, 0, 0, 0, 1, True, 0), (2, 0, 0, 0, 1, False, 0)]
@@ -201,6 +269,29 @@ def run(ctx):
             r = ctx.tlc(S, "MC_SpanEndSim", "MC_SpanEndSim.cfg", defines=mc_defs(*c, shape=shape, known=True), workers=1,
                         simulate="num=%d" % nsim, depth=400, name="sim-" + cfg_name(*c), timeout=900)
             behaviours(c, r, "sim")
+        # user code inside span methods: RecordError -> err.Error(), End deferred during a panic -> format of the
+        # recovered value (natural gates m@err.Error, e@panic.Format), event queue at its limit
+        if ms != "unknown" and ps != "unknown":
+            um = dict(mshape=ms, pshape=ps)
+            ucfgs = [((2, 1, 0, 0, 2, True, 0), (1, 1, 1, 0)), ((2, 1, 0, 0, 1, False, 0), (0, 1, 1, 1))]
+            for c, u in ucfgs:
+                r = ctx.tlc(S, "MC_SpanEndSim", "MC_SpanEndSim.cfg", workers=1, name="all-user-" + cfg_name(*c) + "-u%d%d%d%d" % u,
+                            defines=mc_defs(*c, shape=shape, known=True, u=udefs(*u, **um)), timeout=1800, count=False)
+                behaviours(c, r, "uall", u=u)
+            c, u = (2, 2, 1, 0, 2, True, 0), (1, 2, 1, 1)
+            r = ctx.tlc(S, "MC_SpanEndSim", "MC_SpanEndSim.cfg", workers=1, simulate="num=%d" % nsim, depth=400,
+                        name="sim-user-" + cfg_name(*c), defines=mc_defs(*c, shape=shape, known=True, u=udefs(*u, **um)), timeout=900)
+            behaviours(c, r, "usim", u=u)
+            # schedules of the DEVIATING shapes (D2 panic-format window, D3 late RecordError into an aliased full
+            # queue) in which the model breaks the contract: tried on the real code whatever its shape is. Where
+            # the code holds the lock they cannot be followed (desync, no verdict); where it does not, they must
+            # still be harmless.
+            for c, u, dev in (((2, 1, 0, 0, 2, True, 0), (1, 1, 1, 0), dict(mshape="norecheck", pshape=ps)),
+                              ((2, 1, 0, 0, 1, False, 0), (0, 1, 1, 1), dict(mshape=ms, pshape="norecheck"))):
+                r = ctx.tlc(S, "MC_SpanEndSim", "MC_SpanEndSim.cfg", workers=1, name="dev-user-" + cfg_name(*c) + "-u%d%d%d%d" % u,
+                            defines=mc_defs(*c, shape=shape, known=True, u=udefs(*u, **dev)), timeout=1800, count=False)
+                ctx.extra["deviation_schedules"] = ctx.extra.get("deviation_schedules", 0) + \
+                    behaviours(c, r, "udev", u=u, only_bad=True, limit=(12 if thorough else 4))
         nbeh = len(scenarios)
         for rep in range(5 if thorough else 2):
             scenarios += directed(shape)
@@ -306,7 +397,8 @@ def run(ctx):
                 continue
             nfollowed += 1
             want = [b["onEnd"].get("p%d" % (i + 1), 0) for i in range(len(rec["handed"]))]
-            got_ok = (rec["handed"] == want and (rec["child"] < 0 or (rec["child"] == b["child"] and 2 * rec["nfull"] == b["parts"])))
+            got_ok = (rec["handed"] == want and (rec["child"] < 0 or (rec["child"] == b["child"] and
+                                                                      (not b.get("cmp_parts", True) or 2 * rec["nfull"] == b["parts"]))))
             if not got_ok:
                 ndrift += 1
                 if ndrift <= 3:
